@@ -206,6 +206,35 @@ func sweepCase(out *gal.Out, s uint64, gstep int) {
 	emit(out, "sweep8", 8, s, ops)
 }
 
+// tripleSum folds the outcomes of Add(f, g) and Remove(f, g) from stored value s over all
+// (f, g) of the 8-bit type into one checksum (same fold as triple_sum in BitSetJudge.v).
+func tripleSum(s uint64) uint64 {
+	h := uint64(0)
+	for f := uint64(0); f < 256; f++ {
+		for g := uint64(0); g < 256; g++ {
+			a := set.BitSet[f8](s)
+			fa := a.Add(f8(f), f8(g))
+			r := set.BitSet[f8](s)
+			fr := r.Remove(f8(f), f8(g))
+			v := uint64(a) + 256*uint64(r)
+			if fa {
+				v += 65536
+			}
+			if fr {
+				v += 131072
+			}
+			h = (h*1000003 + v) % 2147483647
+		}
+	}
+	return h
+}
+
+type jtri struct {
+	Kind string `json:"kind"`
+	S    uint64 `json:"s"`
+	Sum  uint64 `json:"sum"`
+}
+
 func main() {
 	seed := flag.Uint64("seed", 1, "PRNG seed")
 	prefix := flag.String("out", "c11", "output prefix")
@@ -221,6 +250,22 @@ func main() {
 		emit(out, "corpus", 8, 3, []op{{"Remove", []uint64{6}}})
 		emit(out, "corpus", 8, 3, []op{{"Remove", []uint64{0}}})
 		emit(out, "corpus", 64, 1<<63|1, []op{{"Remove", []uint64{1<<63 | 2}}, {"Add", []uint64{0}}, {"Has", []uint64{0}}})
+	case "triples":
+		for st := uint64(0); st < 256; st++ {
+			h := tripleSum(st)
+			out.Case("{| tc_s := "+gal.N(st)+"; tc_sum := "+gal.N(h)+" |}", jtri{"triples8", st, h})
+		}
+	case "tripledetail":
+		// all (f, g) for one stored value, one case per f (used to localise a checksum mismatch)
+		st := uint64(*n)
+		for f := uint64(0); f < 256; f++ {
+			ops := make([]op, 0, 1024)
+			for g := uint64(0); g < 256; g++ {
+				ops = append(ops, op{"Make", []uint64{st}}, op{"Add", []uint64{f, g}},
+					op{"Make", []uint64{st}}, op{"Remove", []uint64{f, g}})
+			}
+			emit(out, "tripledetail", 8, st, ops)
+		}
 	case "sweep":
 		if *n >= 256 {
 			for s := uint64(0); s < 256; s++ {
